@@ -216,9 +216,11 @@ CORE = GF + PACK + ["L.gf.single", "L.gf.swap", "L.gf.unique", "L.gf.coin", "U.s
         "B.str.nfkd_lazy", "B.cmp.str", "B.cmp.prefix",
         "U.api.free@ndebug", "U.api.create@ndebug", "U.api.load@ndebug", "U.api.crypt@ndebug", "U.api.decode@ndebug",
         "U.api.decode_explicit@ndebug", "U.api.keygen@ndebug", "U.dep.inject@ndebug", "U.api.store@ndebug"]
+CORE_ENGINES = ["statics", "calls", "encwords"]   # cheap (seconds): hidden state, direct libc calls, every table word through the real encoder / decoders
 for _pid, _p in PROPS.items():
     _p["own_units"] = list(_p.get("units", []))
     _p["units"] = uniq(_p.get("units", []) + CORE)
+    _p["engines"] = uniq(list(_p.get("engines", [])) + CORE_ENGINES)
 
 NOT_APPLICABLE = {}
 HOOK_COMMITS = []
